@@ -5,5 +5,5 @@ Require Import Extraction ExtrOcamlBasic.
 Extraction Blacklist List String Int.
 Extraction "../ocaml/extracted/c06_hierarchy.ml"
   cell_get flatten_fuel denote_d expand elem_shapes shape_of lookup
-  gshape_apply gshape_shift gshape_apply_required
+  gshape_apply gshape_shift
   vred ared affred plred polyred fpred rpred grid Qred Qmake N.eqb aff_id placement_map.
